@@ -61,6 +61,53 @@ fn leader_of(n: usize, slot: u64) -> usize {
     ((slot / 4) % n as u64) as usize
 }
 
+/// Looks for the first slot after `finalized` whose votes (everything any validator ever sent for it) can no
+/// longer produce a certificate or justify a fallback vote: at least two blocks with notar votes, every live
+/// validator has voted, and with all votes counted no threshold of the protocol is met.
+fn deadlocked_slot(cfg: &RunCfg, out: &RunOut, finalized: u64) -> Option<String> {
+    let total = cfg.ep.total();
+    let faulty: u128 = cfg.byz.iter().copied().chain(out.crashed.iter().copied()).collect::<BTreeSet<usize>>().iter().map(|i| cfg.ep.stakes[*i] as u128).sum();
+    if faulty * 5 <= total {
+        return None;
+    }
+    for slot in finalized + 1..finalized + 9 {
+        let mut notar: BTreeMap<H32, BTreeSet<usize>> = BTreeMap::new();
+        let mut skip: BTreeSet<usize> = BTreeSet::new();
+        for v in out.votes_sent.iter().map(|x| &x.2).chain(out.byz_own_votes.iter()) {
+            if v.slot != slot || v.signer >= cfg.ep.n() {
+                continue;
+            }
+            match (v.kind, v.hash) {
+                (VK::Notar, Some(h)) => {
+                    notar.entry(h).or_default().insert(v.signer);
+                }
+                (VK::Skip, _) => {
+                    skip.insert(v.signer);
+                }
+                _ => {}
+            }
+        }
+        if notar.len() < 2 {
+            continue;
+        }
+        let st = |s: &BTreeSet<usize>| -> u128 { s.iter().map(|i| cfg.ep.stakes[*i] as u128).sum() };
+        let per: Vec<u128> = notar.values().map(st).collect();
+        let sum: u128 = per.iter().sum();
+        let max: u128 = per.iter().copied().max().unwrap_or(0);
+        let sk = st(&skip);
+        // every validator that is still alive and correct has cast its initial vote
+        let voted: BTreeSet<usize> = notar.values().flatten().copied().chain(skip.iter().copied()).collect();
+        let all_voted = out.correct.iter().all(|c| voted.contains(c));
+        let any_cert = max * 5 >= 3 * total || sk * 5 >= 3 * total;
+        let s2s = (sk + sum - max) * 5 >= 2 * total;
+        let s2n = per.iter().any(|nb| *nb * 5 >= 2 * total || (*nb * 5 >= total && (*nb + sk) * 5 >= 3 * total));
+        if all_voted && !any_cert && !s2s && !s2n {
+            return Some(format!("slot {slot}: notar stake per block {per:?}, skip {sk}, total {total}, crashed or Byzantine {faulty}"));
+        }
+    }
+    None
+}
+
 /// C02: bounded progress after the stabilisation instant.
 pub fn progress_oracle(cfg: &RunCfg, out: &RunOut) -> (Vec<Finding>, Value, usize) {
     let mut f = Vec::new();
@@ -93,7 +140,14 @@ pub fn progress_oracle(cfg: &RunCfg, out: &RunOut) -> (Vec<Finding>, Value, usiz
                 last_val = *s;
                 last_change = *t;
             } else if *t - last_change > bound {
-                f.push(Finding { prop: "C02", sig: "highest finalized slot stopped advancing after stabilisation".into(), detail: format!("node {v}: stuck at slot {last_val} from {} ms to {} ms (bound {} ms)", last_change.as_millis(), t.as_millis(), bound.as_millis()) });
+                // is the chain stuck behind a slot that the voting rules can never certify? (an equivocating leader
+                // split the notar votes so that no certificate and no safe-to condition is reachable any more)
+                let deadlock = deadlocked_slot(cfg, out, last_val);
+                let sig = match deadlock {
+                    Some(_) => "an equivocating leader split the votes of a slot so that no certificate and no safe-to condition is reachable (more than 20 % of the stake crashed or Byzantine): finalization stops for good".to_string(),
+                    None => "highest finalized slot stopped advancing after stabilisation".to_string(),
+                };
+                f.push(Finding { prop: "C02", sig, detail: format!("node {v}: stuck at slot {last_val} from {} ms to {} ms (bound {} ms){}", last_change.as_millis(), t.as_millis(), bound.as_millis(), deadlock.map(|d| format!("; {d}")).unwrap_or_default()) });
                 break;
             }
         }
@@ -331,6 +385,27 @@ pub fn rival_cfg(rng: &mut SRng, cfg: &mut RunCfg) {
 pub fn run_c02(ctx: &mut Ctx) -> Result<(), String> {
     let mut rng = ctx.rng("c02");
     let runs = ctx.iters(32, 1200);
+    if ctx.shard == 0 {
+        // directed (reproduces a recorded finding every run): 6 equal validators, one crashed, one Byzantine
+        // leader that shows one block to half of the correct nodes and another block to the other half
+        let mut cfg = base_cfg(&mut rng, true, false, false);
+        cfg.ep = make_epoch(&mut rng, &[1u64; 6], "equal");
+        cfg.byz = [1usize].into_iter().collect();
+        cfg.byz_leader = ByzLeader::TwoBlocks;
+        cfg.byz_votes = false;
+        cfg.byz_certs = false;
+        cfg.crashes = vec![(3, Duration::from_millis(500))];
+        cfg.chaos = chaos_profiles()[0].clone();
+        cfg.t_stable = Duration::ZERO;
+        cfg.delta = Duration::from_millis(10);
+        cfg.diss = DissKind::Trivial;
+        cfg.tx_rate = 0;
+        cfg.duration = Duration::from_secs(20);
+        cfg.label = "c02-equivocation-with-crash".into();
+        let out = run_exec(&cfg, &mut rng);
+        ctx.count("equivocation-with-crash-executions");
+        judge_all(ctx, "C02", &cfg, &out);
+    }
     for run_ix in 0..runs {
         let (wb, wc) = (rng.random_bool(0.6), rng.random_bool(0.5));
         let mut cfg = base_cfg(&mut rng, ctx.quick(), wb, wc);
